@@ -44,7 +44,7 @@ def standalone_for(text, ver):
       "print([[str(e) for e in p] for p in g.linear_paths()])",
       "try:",
       "  g.merge_linear_paths()",
-      "except gfapy.Error as e:",
+      "except Exception as e:",
       "  print(type(e).__name__, str(e).split('\\n')[0])",
       "print(g)"])
 
@@ -145,7 +145,8 @@ def judge(text, ver, counts):
   t1 = str(g)
   after = R.parse(t1, ver)
   pred, pr = R.predict_merge(doc, paths)
-  assert not pr, pr
+  if pr:   # cannot happen after the detection clauses passed
+    raise RuntimeError("reference rejects walks it accepted: {}".format(pr))
   for clause, detail in R.compare_merge(doc, pred, after):
     probs.append((clause, detail, {}))
   # components through the API = components of the written text
@@ -168,7 +169,7 @@ def judge(text, ver, counts):
       probs.append(("not-idempotent", "after the merge linear_paths() = {} "
                     "and a second merge gives {}".format(
                         [R.fmt_path(as_path(p)) for p in lp2], flat(t2)), {}))
-  except gfapy.Error as e:
+  except Exception as e:
     probs.append(("not-idempotent", "second merge raises " + exc_text(e), {}))
   info["outcome"] = "merged:{}{}".format(
       len(ref), "+cycle" if any(c.cyclic for c in ref) else "")
@@ -192,7 +193,7 @@ def eval_graph(label, sp, res):
       probs, info = judge(text, ver, counts)
   except HarnessTimeout:
     probs = None
-  except gfapy.Error as e:
+  except Exception as e:
     probs = [("raises", exc_text(e), {"exc": type(e).__name__})]
     info = {"outcome": "raises-outside-merge"}
   if probs is None or timed_out():
@@ -306,7 +307,7 @@ def digest():
       try:
         g.merge_linear_paths()
         out.append(h([lp, str(g)]))
-      except gfapy.Error as e:
+      except Exception as e:
         out.append(h([lp, "exc:" + type(e).__name__, str(g)]))
     except Exception as e:
       out.append("exc:" + type(e).__name__)
@@ -413,7 +414,7 @@ def replay(w, ctx):
   try:
     with guard(30):
       probs, info = judge(text, ver, counts)
-  except gfapy.Error as e:
+  except Exception as e:
     probs = [("raises", exc_text(e), {"exc": type(e).__name__})]
   cls = R.shape_class(R.parse(text, ver), info.get("paths"))
   out, seen = [], set()
